@@ -197,9 +197,29 @@ def main(argv):
     t0 = time.time()
     problems = []     # things that break the tie or a proof: (kind, description, payload)
 
-    # ---- 1. Lean: theorems + model executable ----
-    pre = cfg.get("pre_lean")
-    ok, out = lean_build(prop, (lambda: pre(sys.modules[__name__])) if pre else None)
+    # ---- 0. Rust harness against the current working tree (also generates the tables) ----
+    okb, outb = harness_build()
+    if not okb:
+        log(outb[-3000:])
+        problems.append(("correspondence", "the harness does not build against /repo's working tree",
+                         {"log_tail": outb[-1500:]}))
+
+    # ---- 1. Lean: generated tables, theorems + model executable ----
+    gen = cfg.get("generated")
+    def pre():
+        if gen and okb:
+            for sub, rel in gen:
+                rc, out = run([HARNESS_EXE, sub])
+                path = os.path.join(LEAN, rel)
+                if rc == 0 and out.strip():
+                    old = open(path).read() if os.path.exists(path) else None
+                    if old != out:
+                        os.makedirs(os.path.dirname(path), exist_ok=True)
+                        with open(path, "w") as fh:
+                            fh.write(out)
+                else:
+                    problems.append(("correspondence", "table generator %s failed" % sub, {"log_tail": out[-500:]}))
+    ok, out = lean_build(prop, pre)
     names, axioms, audit_err = ([], {}, "")
     if not ok:
         log(out[-3000:])
@@ -223,14 +243,9 @@ def main(argv):
         problems.append(("proof", "forbidden constructs in Lean sources: %s" % hits[:5], {"hits": hits}))
         discharged = 0
 
-    # ---- 2. Rust harness on the current working tree ----
+    # ---- 2. run the harness: correspondence + direct oracle ----
     res = None
-    okb, outb = harness_build()
-    if not okb:
-        log(outb[-3000:])
-        problems.append(("correspondence", "the harness does not build against /repo's working tree",
-                         {"log_tail": outb[-1500:]}))
-    elif os.path.exists(MODEL_EXE):
+    if okb and os.path.exists(MODEL_EXE):
         res, err = harness_run(prop, tier, seed)
         if res is None:
             problems.append(("correspondence", "harness run failed: " + err[-800:], {}))
